@@ -5,3 +5,5 @@ const verifBoundJournalBytes = 24
 const verifBoundBatch = 3
 const verifBoundRootRec = 40
 const verifBoundFile = 10
+const verifBoundIdxLookups = 3
+const verifBoundIdxFile = 112
